@@ -39,6 +39,11 @@ type Session struct {
 	iteratorFuncs sync.Map
 	config        *configuration.Configuration
 	context       Context
+
+	// Types this session generated itself, in order, so that everything cached
+	// during a generation that ends up failing can be withdrawn again.
+	generatedMutex sync.Mutex
+	generated      []reflect.Type
 }
 
 // Start a new iterator session. It will inherit the iterators of its parent.
@@ -109,6 +114,9 @@ func (_this *Session) GetIteratorForType(t reflect.Type) IteratorFunction {
 		simYield("iter:ph-enter")
 		wg.Wait()
 		simYield("iter:ph-woke")
+		if iterator == nil {
+			panic(fmt.Errorf("cannot iterate objects of type %v", t))
+		}
 		iterator(context, value)
 	}))
 	if loaded {
@@ -117,17 +125,57 @@ func (_this *Session) GetIteratorForType(t reflect.Type) IteratorFunction {
 	}
 	simYield("iter:installed")
 
+	generatedMark := _this.markGenerated()
+	defer func() {
+		if iterator == nil {
+			// Generation failed (unsupported type). Remove the placeholder and
+			// release anyone waiting on it, otherwise every later use of this
+			// type on this session blocks forever.
+			_this.iteratorFuncs.Delete(t)
+			// Also withdraw what was cached on the way (e.g. the pointer-to-T
+			// generator made while generating T): it is bound to this dead
+			// placeholder, and leaving it behind would let later lookups of
+			// types built on it succeed where a fresh session fails.
+			_this.withdrawGeneratedSince(generatedMark)
+			wg.Done()
+		}
+	}()
 	iterator = _this.getDefaultIteratorForType(t)
 	simYield("iter:generated")
 	wg.Done()
 	simYield("iter:done")
 	_this.iteratorFuncs.Store(t, iterator)
+	_this.noteGenerated(t)
 	simYield("iter:stored")
 	return iterator
 }
 
 // ============================================================================
 // Internal
+
+func (_this *Session) markGenerated() int {
+	_this.generatedMutex.Lock()
+	defer _this.generatedMutex.Unlock()
+	return len(_this.generated)
+}
+
+func (_this *Session) noteGenerated(t reflect.Type) {
+	_this.generatedMutex.Lock()
+	defer _this.generatedMutex.Unlock()
+	_this.generated = append(_this.generated, t)
+}
+
+func (_this *Session) withdrawGeneratedSince(mark int) {
+	_this.generatedMutex.Lock()
+	defer _this.generatedMutex.Unlock()
+	if mark > len(_this.generated) {
+		mark = len(_this.generated)
+	}
+	for _, t := range _this.generated[mark:] {
+		_this.iteratorFuncs.Delete(t)
+	}
+	_this.generated = _this.generated[:mark]
+}
 
 // The root session caches the most common iterators. All sessions inherit
 // these cached values.
